@@ -22,6 +22,12 @@ fn main() {
         let text = std::fs::read_to_string(&args[2]).expect("read replay file");
         let doc: serde_json::Value = serde_json::from_str(&text).expect("parse replay file");
         let prop = doc["property"].as_str().expect("property").to_string();
+        verif_mc::common::start_watchdog(verif_mc::props::static_prop(&prop), Tier::Quick, verif_mc::props::level_of(&prop), false);
+        if doc["signature"].as_str().unwrap_or("").starts_with("does-not-terminate") && prop != "C16" {
+            // the recorded case is one on which a call never returned: it is re-executed under the watchdog, which ends
+            // the process with a VIOLATION line if it hangs again
+            println!("replaying a non-terminating case under the termination watchdog ({}s)", verif_mc::common::watch_limit_s());
+        }
         let sigs = verif_mc::props::replay(&prop, &doc["case"]);
         println!("replay of {} produced signatures: {:?}", args[2], sigs);
         let expected = doc["signature"].as_str().unwrap_or("");
